@@ -633,6 +633,8 @@ def parse_units(s) :
     for b in blocks :
         if b[2] == "" :
             b[2] = "1"
+        elif not (b[2].isascii() and (b[2][1:] if b[2][0] == "-" else b[2]).isdecimal()) :
+            raise ValueError("invalid unit exponent \""+b[2]+"\".")
         b[2] = int(b[2])
         if b[0] == "/" :
             b[2] = -b[2]
